@@ -2,6 +2,18 @@
 """Regenerates MANIFEST.json from the table below (kept in one place so it stays valid)."""
 import json
 CLAIMED = {
+ "C05": dict(tech="model checking / fault enumeration: complete product of stream shapes x every cut offset x every legal way an io.Reader reports the end x chunking x read program on the real reader",
+             text="For every cut offset of every stream shape and every fault kind ((0,EOF),(n,EOF),(0,err),(n,err),timeouts) the reference computes which messages had completely arrived; reported-complete messages must be a byte-identical prefix between 'must' and 'may', partial messages end in a non-EOF error, NextReader errors are sticky.",
+             note="message completing in the failing transport read itself: either outcome accepted; 5/990 repeated calls", ref="§4 C05"),
+ "C06": dict(tech="model checking: explicit-state enumeration over read histories x limits x fragmentations x 64-bit claims on the real reader with a transport that withholds the crossing frame's payload",
+             text="Complete product of limits, histories (two slots: unfragmented/fragmented x read fully/1 byte/abandoned), sizes L-1/L/L+1 with every cut composition, 64-bit claims alone/after partial sums, interleaved ping, read programs. Within-limit messages must be readable, over-limit ones refused with ErrReadLimit before their payload exists, 1009 on the wire; allocation independent of claimed length.",
+             note="1009 not required for top-bit/overflowing sums; TotalAlloc is deterministic in a single goroutine", ref="§4 C06"),
+ "C10": dict(tech="model checking / fault enumeration: every transport operation index of every explored write program is a choice point with answers ok/error/timeout/short/zero write; invalid requests x positions; deadline compared at every transport Write",
+             text="After any single fault: wire prefix decodes to whole frames + <=1 partial, no later transport Write, every later message-level write fails; invalid requests write nothing and leave the stream intact (judged by the independent decoder); each Write runs under the expected deadline.",
+             note="single fault per execution; lean content dimensions", ref="§4 C10"),
+ "C20": dict(tech="model checking: same program x fault x invalid-request space with an instrumented poisoning BufferPool whose Get/Put log is stamped with the API call and transport op in progress",
+             text="Get/Put log must be (Get Put)* with the same buffer, Gets only in message-starting calls, no buffer held between messages (after Close, implicit close, error, invalid request), every frame write issued while the buffer is owned; poisoned returned buffers make use-after-release visible on the wire.",
+             note="sequential part; concurrent sharing is explored by the scheduler scenarios (see DESIGN.md)", ref="§4 C20"),
  "C01": dict(tech="model checking: deviation-bounded exhaustive exploration of write programs x read programs on a real Conn pair, oracle = list of messages given to the write API",
              text="Core product role x deflate x WriteBufferSize x size in S(B) x write program enumerated completely; every other dimension (type, pattern, level, toggles, pool, interleaved control writes, further messages, read buffer/program/size, chunking, abandon) explored exhaustively up to the deviation bound. All executions are of the real code.",
              note="sizes restricted to the boundary set S(B); sequences <= 2 (quick) / 3 (thorough); scripted in-memory transport", ref="§4 C01"),
